@@ -91,6 +91,10 @@ pub proof fn lemma_track(orig: Seq<u8>, off: int, p: Seq<u8>, n: Seq<u8>)
 pub assume_specification<T: Clone> [<[T]>::to_vec] (s: &[T]) -> (r: Vec<T>)
     ensures r@.len() == s@.len(), forall|i: int| 0 <= i < s@.len() ==> cloned(s@[i], #[trigger] r@[i]);
 
+// `Vec::from(slice)` is `slice.to_vec()` (std: impl<T: Clone> From<&[T]> for Vec<T>)
+pub assume_specification<'a, T: Clone> [<Vec<T> as From<&'a [T]>>::from] (s: &[T]) -> (r: Vec<T>)
+    ensures r@.len() == s@.len(), forall|i: int| 0 <= i < s@.len() ==> cloned(s@[i], #[trigger] r@[i]);
+
 pub assume_specification [u16::overflowing_sub] (a: u16, b: u16) -> (r: (u16, bool))
     ensures r.0 as int == (if a >= b { a - b } else { a - b + 65536 }), r.1 == (a < b);
 
